@@ -25,3 +25,43 @@ func H_C07_Command() {
 	c.Unmarshal(vBytes("data", vParam("n")))
 	vCover("end")
 }
+
+// H_C07_Command_framed: the same totality obligation on inputs that pass the outer framing, so that the field decoders
+// behind it are reached: WordCount and ByteCount take the values the command's own encoding has (for buffers of `len`
+// bytes, plus `dw` words / `db` bytes), every parameter and data byte — including every embedded length, count and offset
+// field — is arbitrary.
+func H_C07_Command_framed() {
+	var c, d command_interface.CommandInterface
+	var err error
+	code := codes.CommandCode(vParam("cmd"))
+	if vParam("resp") == 1 {
+		c, err = CreateResponseCommand(code)
+		d, _ = CreateResponseCommand(code)
+	} else {
+		c, err = CreateRequestCommand(code)
+		d, _ = CreateRequestCommand(code)
+	}
+	if err != nil {
+		vCover("end")
+		return
+	}
+	VFill(c, vParam("len"))
+	own, err := c.Marshal()
+	if err != nil || len(own) < 3 {
+		vCover("end")
+		return
+	}
+	w := int(own[0]) + vParam("dw")
+	b := len(own) - 3 - 2*int(own[0]) + vParam("db")
+	if w < 0 || w > 255 || b < 0 {
+		vCover("end")
+		return
+	}
+	in := []byte{byte(w)}
+	in = append(in, vBytes("words", 2*w)...)
+	in = append(in, byte(b), byte(b>>8))
+	in = append(in, vBytes("bytes", b)...)
+	d.Init()
+	d.Unmarshal(in)
+	vCover("end")
+}
